@@ -44,7 +44,7 @@ Definition goon (st : status) : bool :=
   match st with Ok | ActiveClosing => true | _ => false end.
 
 (* session.write: status == ok || (status == activeClosing && mtype == REPLY) *)
-Definition admit (st : status) (is_reply : bool) : bool :=
+Definition admits (st : status) (is_reply : bool) : bool :=
   match st with Ok => true | ActiveClosing => is_reply | _ => false end.
 
 (* Session.Health for a session without redial *)
